@@ -57,6 +57,9 @@ Definition seg_batches (n : nat) (s : bseg) : list (list bop) :=
    else chunks n (sg_ops s)).
 Definition seg_expected (n : nat) (s : bseg) : list icall := flat_map batch_calls (seg_batches n s).
 Definition buf_expected (n : nat) (segs : list bseg) : list icall := flat_map (seg_expected n) segs.
+(* the calls of the repaired algorithm (Model/Buffered.v fix_batch_calls), accepted as well *)
+Definition buf_expected_fix (n : nat) (segs : list bseg) : list icall :=
+  flat_map (fun s => flat_map fix_batch_calls (seg_batches n s)) segs.
 
 Definition seg_all_ops (s : bseg) : list bop := BOnce (sg_primer s) :: sg_ops s.
 Definition buf_all_ops (segs : list bseg) : list bop := flat_map seg_all_ops segs.
@@ -71,7 +74,8 @@ Definition buf_verdict (n : nat) (ks0 : list N) (segs : list bseg) (impl : list 
   let s0 := {| ks := ks0; pend := [] |} in
   let s_seq := i_run s0 (seq_calls ops) in
   let s_b := i_run s0 impl in
-  let agree := list_eqb icall_eqb (map norm_call (buf_expected n segs)) (map norm_call impl) in
+  let agree := list_eqb icall_eqb (map norm_call (buf_expected n segs)) (map norm_call impl)
+               || list_eqb icall_eqb (map norm_call (buf_expected_fix n segs)) (map norm_call impl) in
   (* the keystore holds the same keys as after one-by-one execution *)
   let ks_ok := forallb (fun k => Bool.eqb (memN k (ks s_seq)) (memN k (ks s_b))) univ in
   (* a key that one-by-one execution leaves waiting to be advertised is waiting, or kept
